@@ -111,6 +111,15 @@ def judge_trace(ctx, trace, source, kd, classify=True):
     v = lib.judge(ctx, MODULE_T, cfg, trace, max_events=25000)
     v["violations"] = sorted(set(v["violations"]))
     ctx.stage("judge", source=source, events=v["events"], violations=len(v["violations"]), deviations=len(v["deviations"]), wall_s=v["wall_s"])
+    if v["violations"] and "family=cdn" in source:
+        # real clock: "download() was not back after the driver's patience" cannot be told from a starved
+        # machine; an unexpected one is inconclusive (exit 2), never a VIOLATION (DESIGN 3.6)
+        lines = lib.read_lines(trace)
+        for ln in v["violations"]:
+            e = json.loads(lines[ln - 1])
+            if e.get("op") == "ret" and e["res"].get("kind") == "waiting":
+                raise lib.ToolError(f"inconclusive: CdnClient::download did not return within the driver's wall-clock patience (trace line {ln}); "
+                                    "a hang cannot be told from a starved machine on the real clock")
     if classify:
         lib.classify_trace(ctx, v, trace, source, program_of=program_of)
     return v
@@ -208,13 +217,11 @@ def selftest(ctx, trace, kd):
 
 
 def witnesses(ctx, kd):
-    """With a finding's deviation enabled, TLC must find the property violated on the machine (the finding's witness);
-    informational, a deviation nobody can reach any more is reported, not failed."""
+    """With a finding's deviation enabled, TLC must find the property violated on the machine: this regenerates the
+    finding's witness at model level whatever the finding's status (known or fixed). Informational."""
     want = {"F14a": "GapBound", "F14b": "NoPanic", "F14c": "NoPanic"}
     out = {}
-    for fid in kd:
-        if fid not in want:
-            continue
+    for fid in sorted(want):
         cfg = ctx.path(f"mc_wit_{fid}.cfg")
         kw = dict(maxes=[2], inits=[0, 1000], maxbs=[100, SAT], mults=["2", "-1", "inf"], hints=[30], hint_huge=True)
         lib.write_cfg(cfg, constants("hostile", [fid], **kw), "MCInit", "MCNext", invariants=[i for i in INVARIANTS if i != "Emit"])
@@ -312,7 +319,7 @@ def run(ctx):
                                    "followed by Ok or a fatal error, k = 0..max_attempts+1; every pair of error variants (kinds); every environment of "
                                    "the env grid; every status script of the cdn grid. The random tier is not exhaustive")
     ctx.assumptions += ["TLC, the CommunityModules Json reader, tokio's paused clock (test-util) and the driver's projection are trusted",
-                        "delays are observed on tokio's virtual clock with a 2 ms allowance per wait; the cdn family uses the real clock: exact lower bounds, upper bounds with a 10 s allowance",
+                        "delays are observed on tokio's virtual clock with a 2 ms allowance per wait; the cdn family uses the real clock and is judged on lower bounds of waits only (no wall-clock upper bound decides anything; a download that is not back after 60 s is inconclusive, exit 2)",
                         "CdnClient::download_with_retry is judged against RetryPolicy::default() as read back from the crate",
                         "jitter is drawn from the thread RNG: the verdict does not depend on it because every admissible jitter value is accepted"]
     return lib.finish(ctx, "model_checking",
